@@ -49,7 +49,13 @@ def gen_cases_for(seed_, n):
         for k in range(nthreads):
             inp, flat = make_input(rng, k)
             inputs.append(inp)
-            ops.append({"op": "gen", "input": k, "fw": rng.choice(FWS), "flat": flat})
+            if nthreads == 1 and i % 10 == 5:
+                # per-model rendering (GeneratorClass(model).generate()) from a thread that never ran generate_code
+                ops.append({"op": "direct", "input": k, "fw": rng.choice(FWS), "flat": flat})
+            elif nthreads > 1 and rng.random() < 0.15:
+                ops.append({"op": "direct", "input": k, "fw": rng.choice(FWS), "flat": flat})
+            else:
+                ops.append({"op": "gen", "input": k, "fw": rng.choice(FWS), "flat": flat})
         cases.append({"i": i, "inputs": inputs, "ops": ops, "rate": rng.choice([0.01, 0.03, 0.08]) if nthreads > 1 else 0.0,
                       "sched_seed": rng.randrange(1 << 30)})
     return cases
